@@ -389,8 +389,9 @@ impl Fp {
     /// Returns whether or not this element is strictly lexicographically
     /// larger than its negation.
     pub fn lexicographically_largest(&self) -> Choice {
+        // (p - 1) / 2 + 1: the smallest element that is larger than its negation.
         const HALF_MODULUS: [u64; 4] = [
-            0xfffffffffffffff6,
+            0xfffffffffffffff7,
             0xffffffffffffffff,
             0xffffffffffffffff,
             0x3fffffffffffffff,
